@@ -110,19 +110,6 @@ Proof.
   - intros f v. apply clean_proposals_only_old; [apply PI_run|vm_compute; split; discriminate].
 Qed.
 
-(* for any configured depth and guard literal: nothing younger than newest - depth is ever removed *)
-Theorem C24_clean_never_too_young : forall deep guard st k v, 0 <= deep -> 0 <= guard ->
-  get_ballot k st = Some v -> get_ballot k (snd (clean_ballots deep guard st)) = None ->
-  fst k <= top_height (ballots st) - deep \/ False.
-Proof.
-  intros deep guard st k v Hd Hg G N. left. unfold clean_ballots, get_ballot in *.
-  destruct (clean_threshold deep guard (ballots st)) as [h|] eqn:T; cbn [snd ballots] in N; [|congruence].
-  rewrite (get_filter_key key_eqb key_eqb_spec (fun x => negb (fst x <=? h))) in N.
-  destruct (fst k <=? h) eqn:L; cbn [negb] in N; [|congruence].
-  unfold clean_threshold in T. destruct (ballots st) as [|x t] eqn:B; [discriminate|].
-  destruct (top_height (x :: t) - guard <? 0) eqn:E; [discriminate|]. inversion T; subst.
-Abort.
-
 (* ---------------- all schedules of concurrent calls for one key (SetBallot; SetProposal has the same shape) *)
 
 Section Concurrent.
